@@ -54,6 +54,9 @@ def abf_walker_scenario(case, w, wd, t0=0, t1=None, load=False):
     for t in range(t0, t1 + 1):
         if (w, t) in case["newruns"] and t > t0:
             s += "newrun\nstep\nmark repeat\n"
+        if (w, t) in case.get("outputs", ()) and t > t0:
+            # the run ends between two exchanges (output files written), the next run of the same job follows
+            s += "endrun\nnewrun\nstep\nmark repeat\n"
         f = [[0.0, 0.0, 0.0] for _ in range(ctl.NATOMS)]
         f[2][2] = sv[t]
         f[3][2] = -sv[t]
@@ -76,6 +79,17 @@ def run_abf(c, tier):
                           hist=[[ctl.dy(rng, LO - 1.0, HI + 0.75, 3) for _ in range(T + 1)] for _ in range(nw)],
                           s=[[ctl.dy(rng, -6, 6, 4) for _ in range(T + 1)] for _ in range(nw)],
                           restarts=(set([(rng.randrange(nw), F * rng.randint(1, T // F - 1))]) if rng.random() < 0.4 else set()), newruns=set((rng.randrange(nw), F * rng.randint(1, T // F - 1)) for _ in range(rng.choice([0, 1, 2])))))
+
+    for case in cases:
+        rng = c.rng.__class__(c.seed * 104723 + case["idx"])
+        F, T, nw = case["F"], case["T"], case["nw"]
+        case["outputs"] = set()
+        if F > 1 and rng.random() < 0.5:
+            for _ in range(rng.choice([1, 2])):
+                w = rng.randrange(nw)
+                t = rng.randint(2, T - 1)
+                if t % F != 0 and (w, t) not in case["newruns"] and not any(v == w for (v, _t) in case["restarts"]):
+                    case["outputs"].add((w, t))
 
     def do(case):
         wd = os.path.join(c.work, "abf%d" % case["idx"])
@@ -173,6 +187,7 @@ def run_abf(c, tier):
         if ok:
             c.bump("abf_exchanges_checked", nex)
             c.nontrivial("abf|nw%d|F%d|delay%d|newruns%d|restarts%d|%d" % (nw, F, case["delay"], len(case["newruns"]), len(case["restarts"]), case["idx"]))
+            c.bump("abf_outputs_between_exchanges", len(case["outputs"]))
             c.bump("abf_walker_restarts", len(case["restarts"]))
             c.sample({"part": "shared ABF", "walkers": nw, "sharedFreq": F, "steps": T, "max_delay_us": case["delay"],
                       "run_boundaries": sorted(case["newruns"]), "exchanges_checked": nex}, cap=4)
